@@ -818,8 +818,96 @@ class FnCtx:
             out += self.cond_facts(d, vals, other, excl, sb)
         if edge is not None:
             out += self.edge_facts(*edge)
+        out += self.counter_facts(b)
         self._facts_memo[key] = out
         return out
+
+    def counter_facts(self, b):
+        """monotone loop counters: an integer variable that enters a loop with value X and is only ever decreased
+        (increased) by a non-negative constant inside it never exceeds (falls below) X, provided X does not change in
+        the loop.  Gives `i <= len` for `let mut i = len; while i > 0 { i -= 1; .. }`."""
+        memo = self.__dict__.setdefault("_counter_memo", {})
+        if b in memo:
+            return memo[b]
+        memo[b] = []
+        out = []
+        ft = self.ft
+        loops = ft.cfg.loops()
+        for head, body in loops.items():
+            if b not in body:
+                continue
+            for local, heads in ft._phi.items():
+                if head not in heads:
+                    continue
+                ty = ft.fn["locals"][local]["ty"]
+                if int_range(ty) is None or ty == "bool":
+                    continue
+                phi = ("phi", ft.path, head, local)
+                ops = ft.phi_operands(phi)
+                inits = [v for p_, v in ops.items() if p_ not in body]
+                backs = [v for p_, v in ops.items() if p_ in body]
+                if len(inits) != 1 or not backs:
+                    continue
+                steps = []
+                for v in backs:
+                    st = self._counter_step(phi, v, body, 0)
+                    if st is None:
+                        steps = None
+                        break
+                    steps += st
+                if not steps:
+                    continue
+                init = inits[0]
+                li = self.linear(init, head)
+                lp = ({self.atom(phi, head): 1}, 0)
+                if li is None:
+                    continue
+                # atoms of the initial value must mean the same inside the loop: parameters, constants, length atoms of
+                # collections that are not resized in the loop (their version at the header equals the one at b)
+                stable = True
+                for a in li[0]:
+                    if isinstance(a, tuple) and a and a[0] == "L" and len(a) == 3 and not isinstance(a[1], tuple):
+                        la_b = ("L", a[1], self.len_version(a[1], b, len(ft.blocks[b]["stmts"])))
+                        if la_b != a:
+                            stable = False
+                if not stable:
+                    continue
+                if all(s_ <= 0 for s_ in steps):       # phi <= init
+                    co = dict(lp[0])
+                    for a, c_ in li[0].items():
+                        co[a] = co.get(a, 0) - c_
+                    out.append((co, -li[1]))
+                if all(s_ >= 0 for s_ in steps):       # phi >= init
+                    co = {a: c_ for a, c_ in li[0].items()}
+                    for a, c_ in lp[0].items():
+                        co[a] = co.get(a, 0) - c_
+                    out.append((co, li[1]))
+        memo[b] = out
+        return out
+
+    def _counter_step(self, phi, v, body, depth):
+        """list of constant increments by which back-edge value v differs from phi (through joins inside the loop)"""
+        if depth > 8:
+            return None
+        if v == phi:
+            return [0]
+        if v[0] == "bin" and v[1] in ("Add", "Sub", "AddWithOverflow", "SubWithOverflow") and const_int(v[3]) is not None:
+            inner = self._counter_step(phi, v[2], body, depth + 1)
+            if inner is None:
+                return None
+            c_ = const_int(v[3]) * (1 if v[1].startswith("Add") else -1)
+            return [x + c_ for x in inner]
+        if v[0] == "field" and str(v[2]) == "0" and v[1][0] == "bin":
+            return self._counter_step(phi, ("bin", v[1][1].replace("WithOverflow", ""), v[1][2], v[1][3]), body, depth + 1)
+        if v[0] == "phi" and v[1] == self.ft.path and v[2] in body and v != phi:
+            out = []
+            for o in self.ft.phi_operands(v).values():
+                r = self._counter_step(phi, o, body, depth + 1)
+                if r is None:
+                    return None
+                out += r
+            return out
+        return None
 
     def ne_facts_at(self, b, edge=None):
         """disequalities (atom, value) known at block b: from `x != c` edges and switch-otherwise edges"""
@@ -1925,8 +2013,8 @@ class FnCtx:
         if not hasattr(self, "_loops"):
             self._loops = loops_of(ft)
         for lp in self._loops:
-            if at not in lp.body or lp.item is None or lp.some_succ is None:
-                continue
+            if at not in lp.body or lp.item is None or lp.some_succ is None or getattr(lp, "counter", False) or not lp.next:
+                continue      # hand-written counters get their facts from the loop guard and the counter lemma
             if not ft.cfg.dominates(lp.some_succ, at):
                 continue
             nc = lp.item[2]
